@@ -7,7 +7,7 @@ import torch as tn
 import numpy as np
 import torchtt
 import datetime
-from torchtt._decomposition import QR, SVD, lr_orthogonal, rl_orthogonal
+from torchtt._decomposition import QR, SVD, lr_orthogonal, rl_orthogonal, rank_chop
 from torchtt._iterative_solvers import BiCGSTAB_reset, gmres_restart
 import opt_einsum as oe
 from .errors import *
@@ -561,7 +561,9 @@ def _amen_solve_python(A, b, nswp=22, x0=None, eps=1e-10, rmax=1024, max_full=50
             if k < d-1:
                 u, s, v = SVD(solution_now)
                 if trunc_norm == 'fro':
-                    pass
+                    # truncation in the Frobenius norm of the local solution (as in the TT-Toolbox)
+                    r = rank_chop(s.cpu().numpy(), float(max(real_tol*damp, res_new))*float(tn.linalg.norm(s)))
+                    r = min([r, tn.numel(s), rmax[k+1]])
                 else:
                     # search for a rank such that offeres small enough residuum
                     # TODO: binary search?
